@@ -218,9 +218,9 @@ func pick(t *rapid.T, opts []wk) string {
 // alphabet.  remove enables the direct ChannelRemoved operation.
 func (tr *Tracker) Draw(t *rapid.T, remove bool) Op {
 	var kind string
-	if remove && rapid.IntRange(0, 49).Draw(t, "remove") == 0 {
+	if remove && rapid.IntRange(0, 39).Draw(t, "remove") == 23 { // rapid favours small values: compare with a mid-range one
 		kind = "Remove"
-	} else if rapid.IntRange(0, 9).Draw(t, "wild") == 0 {
+	} else if rapid.IntRange(0, 9).Draw(t, "wild") == 6 {
 		ks := Kinds
 		if !remove {
 			ks = Kinds[:len(Kinds)-1]
